@@ -53,7 +53,7 @@ F_DERIV, F_INTKEY, F_SREPR, F_EQDOSING, F_TOOLORDER, F_INDEXREPR = (
     'C12-DERIVATIVES-TEXT', 'C12-JSON-INTKEY', 'C12-SREPR-DISTRIBUTES', 'C12-EQ-DOSING-ORDER',
     'C12-HASH-TOOLOPTIONS-ORDER', 'C12-DATASET-INDEX-REPR')
 F_RESPATH = 'C12-RESULTS-PATH-READ'
-F_GENVT, F_GRADDEF = 'C12-GENERIC-VALUE-TYPE', 'C12-MODELFIT-GRADIENTS-DEFAULT'
+# fixed in /repo in Phase 3C (7115d86, 36ee5f2): C12-GENERIC-VALUE-TYPE, C12-MODELFIT-GRADIENTS-DEFAULT
 # fixed in /repo (cee2988, ddb8814, eb87ce1, 30e26dc, e582408): C12-JSON-TUPLE, C12-HASH-ORDER, C12-HASH-DEPVAR-ORDER,
 # C12-GENERIC-READ, C12-CATEGORIES-MAPPING -- their witnesses stay in regress/C12; a recurrence is a VIOLATION
 
@@ -958,10 +958,6 @@ def classify(ctx, spec, tags, pair=False):
             fine = 201 in tags and not (tags & {1, 3, 5}) and known(F_DERIV)
         elif t == 12:
             fine = excused_json()
-        elif t == 44:
-            fine = 223 in tags and 43 not in tags and known(F_GENVT)
-        elif t in (16, 19) and 223 in tags and 43 not in tags and 44 in tags:
-            fine = known(F_GENVT)              # the generic model already differs from the model (value_type dropped)
         elif t in (16, 19):
             # the generic model code / file is the JSON way back of the whole model
             fine = 12 in tags and excused_json()
@@ -973,10 +969,11 @@ def classify(ctx, spec, tags, pair=False):
                 fine = False
             elif 221 in tags:
                 fine = known(F_RESPATH)                 # a Path attribute: read_results raises
-            elif 222 in tags:
-                fine = known(F_GRADDEF)                 # gradients_iterations left at its default (None,)
-            elif 220 in tags:
-                # an attribute kind the format does not carry (Model -> None, tuple -> list, int key -> text, or
+            elif 220 in tags and isinstance(spec, dict) and 'results' in spec and any(
+                    v.get('kind') in ('tuple', 'intkey', 'model', 'set', 'ndarray', 'npint')
+                    for v in spec['results']['fields'].values()):
+                # the GENERATOR put in an attribute kind the format does not carry (an unsupported value that
+                # comes from a class default instead is an alarm: C12-MODELFIT-GRADIENTS-DEFAULT, fixed 36ee5f2) (Model -> None, tuple -> list, int key -> text, or
                 # a value json refuses): Refuted.results_unsupported_refuted; counted, not judged
                 ctx.coverage['results_unsupported_kinds'] = ctx.coverage.get('results_unsupported_kinds', 0) + 1
                 fine = True
